@@ -94,6 +94,7 @@ NOT_APPLICABLE = [
 # Clauses added with the second round of seeded changes and the defects D11-D17 (inserted before the "Not decided" part)
 ADDENDA = {
  "C01": "Also: hand-written accumulation helpers (gru._backprop) accumulate and never overwrite; ops overriding backward() reach the generic loop on every path or serve every variable.",
+ "C02": "Also (R02.7): for the log-domain family (logaddexp, logaddexp2, softmax, logsoftmax, sigmoid, softmax-crossentropy, _softmax, logsumexp, gru.sig) an extended-sign abstract interpretation (classes 0/+/-/+inf/-inf/nan plus the tags MAX, GEMAX, NONPOS0, UNIT1, GE1 of the max-shift idiom) shows that finite operands and gradients cannot reach inf/inf, 0/0, 0*inf or inf-inf: a backward rewritten as exp(a)/(exp(a)+exp(b)) or exp(x)/sum(exp(x)) is reported with the sub-expression that first produces nan. Idealisation: only exponentials over/underflow.",
  "C03": "Also: Tensor.__array_ufunc__ evaluates forwarded ufuncs through getattr(ufunc, method) (outer/reduce/accumulate honoured); a parameter that a function inspects with isinstance is still read when it is of none of the tested types (CFG specialised with every such test false): no legal argument is silently ignored; a where= mask given as a Tensor is unwrapped (D19, repaired).",
  "C04": "Also: a wholesale rebuild of a _view_children list maps the same tensor's own children (D15, repaired).",
  "C05": "Also: building the placeholder graph leaves the originals untouched; dtype-kind tests (integer-array index detection of SetItem/GetItem) name abstract scalar classes, never one width (D16, repaired); index classifiers decide from the converted element only, never from its Python type; the routing ops (SetItem, UnView, ApplyMask) and the ufunc where-mask in Operation.backward drop excluded entries by assignment/selection, never by scaling with a 0/1 mask -- 0 * nan = nan leaked non-finite gradients into overwritten / masked-out contents (D28, three sites repaired).",
